@@ -664,6 +664,7 @@ impl<M: Manager, W: From<Object<M>>> Pool<M, W> {
             max_size: slots.max_size,
             idle: slots.vec.len(),
             users: self.inner.users.load_silent(),
+            owed: slots.owed,
         })
     }
 
